@@ -49,6 +49,9 @@ CHECKS = {
  "C11": ("exploration", "runtime monitor: 12-line reference sampler (window/count per level and FNV-1a bucket) checked online against the forwarded entries and decision-hook calls; concurrent part under the race detector with lock-free per-entry slots and an injected yield between counter reset and window CAS",
          "N seeded sequential programs over (N, M, tick) with timestamps placed exactly on window ends, one nanosecond either side, equal, backwards and jumping, hash-colliding messages, disabled (moving AtomicLevel threshold) and out-of-range levels, With-derived cores, plus Config.Build samplers through a real Logger: the ordered forwarded entries and ordered (entry, decision) hook calls must equal the model's. Concurrent runs in a -race child: one key inside one already-open window (exact admitted count) and rollover storms (one decision, one hook call, forwarded iff sampled per entry).",
          "Entries carry strictly positive Unix timestamps. Under concurrent window rollover only the per-entry accounting is judged, as the statement says.", "3/C11"),
+ "C12": ("fault_enumeration", "runtime monitor: stream/alignment/held-back/flushed-and-synced invariants evaluated on the recorded sink event log after every operation with harness-driven ticks; concurrent histories under the race detector with unique records parsed back out of the sink; crash-point enumeration by self-kill at every operation and sink-event boundary in child processes; quiescence-based deadlock verdicts",
+         "Sequential histories over Size in {1,2,7,64,4096,default} with Write lengths 0/1/free/free+1/size-1/size/size+1/3*size, Sync, tick, Stop (repeated, before the first Write, Write after Stop): after every operation the sink stream must be an aligned prefix of the accepted stream with at most Size held back, and after Sync/Stop/tick equal to it and synced; the flush goroutine must be gone after Stop. Concurrent histories (2-8 goroutines mixing Write, Sync, Stop and racing ticks, injected yields at both hook points) in a -race child: exactly-once, per-goroutine order, whole-record sink writes, Sync guarantee, no deadlock, no leak. For each crash history a child is SIGKILLed at every boundary (exhaustive per history) and the file must be an aligned prefix holding everything acknowledged.",
+         "A watchdog that fires while goroutines still move is inconclusive; a deadlock is declared only when, with no harness event pending, every goroutine inside the syncer is blocked with an unchanged stack in two snapshots. Crash = process kill at boundaries (no system call in flight), not power loss.", "3/C12"),
 }
 NOT_YET = {}
 props = [json.loads(l) for l in open(os.path.join(V, "properties.jsonl"))]
